@@ -322,6 +322,11 @@ func checkC17(w *World, r *Report) {
 	// the successor is pushed with sync=true: the heap loop must honour that request, or the successor's
 	// width-synchronised decorators wait for a matrix that never lists them and it is never displayed
 	ruleSyncArm(w, r, "C17")
+	// the hand-over push must not be sent while the heap loop is iterating for flush, and the frame that
+	// triggers the hand-over is the one flush treats as the cancelling frame
+	checkHeapSendDiscipline(w, r, "C17.R4")
+	checkNoRequestWhileIterating(w, r, "C17")
+	ruleRenderTerminal(w, r, "C17")
 	ruleOptionTable(w, r, "C17", map[string][3]string{"BarQueueAfter": {tBState, "waitBar", "param"}})
 }
 
@@ -414,6 +419,9 @@ func checkC18(w *World, r *Report) {
 	// a popped bar has just left the heap with the same length
 	checkOneFrame(w, r, "C18")
 	ruleAddPushesOrParks(w, r, "C18")
+	ruleRowsAreLines(w, r, "C18")
+	checkHeapSendDiscipline(w, r, "C18.R4")
+	checkNoRequestWhileIterating(w, r, "C18")
 	ruleOptionTable(w, r, "C18", map[string][3]string{"BarNoPop": {tBState, "noPop", "true"}, "PopCompletedMode": {tPState, "popCompleted", "true"}})
 }
 
